@@ -118,6 +118,15 @@ def run(F, R, tier):
         g = guards_at(F, cext[0])
         ok = any(x.kind == "cond" and not x.pol and x.node.get("name") == "is_empty" and mentions_field(x.node, "cache_items") for x in g)
         R.ob("C12-b", "cached modules are used exactly when the package came from the cache", ok, "guards: %s" % [x.text()[:40] for x in g], where(cext[0]))
+    # every module item of a valid cache entry is replayed (emitted module or cached diagnostic)
+    lpc = [n for n in tg["_nodes"] if n["k"] == "For" and mentions_field(n["iter"], "modules")]
+    if R.ob("C12-b", "cache replay loop found", len(lpc) == 1, "try_get_cache_item no longer iterates over the cached modules", tg["file"]):
+        pushes_ = [n for n in walk(lpc[0]["body"]) if n.get("k") == "MethodCall" and n["name"] == "push" and field_of(n["recv"]) == "cache_items"]
+        bad, _ = must_pass(F, lpc[0]["body"], lambda n: n in pushes_, exit_kinds=("fallthrough", "continue", "break"))
+        R.ob("C12-b", "every cached module item is replayed into the result", bool(pushes_) and not bad,
+             "an iteration of the cache replay loop adds nothing (e.g. cached diagnostics are dropped): a package that failed when the cache was filled would be served as if it had no diagnostics", where(lpc[0]))
+        errp = [n for n in pushes_ if any(ctor_of(x) == "std::result::Result::Err" for x in walk(n["args"][0]))]
+        R.ob("C12-b", "a cached diagnostic is replayed as a diagnostic", len(errp) >= 1, "no Err(..) entry is produced from cached diagnostics", where(lpc[0]))
     # dependencies replayed from a cache hit
     deps = [n for n in tg["_nodes"] if n["k"] == "For" and mentions_field(n["iter"], "dependencies")]
     ok = len(deps) == 1 and any(callee_matches(x, ["PublicRangeFinder::add_pending_nv_no_referrer"]) for x in walk(deps[0]["body"]))
